@@ -267,7 +267,7 @@ func runC09(c *core.Ctx) {
 		if em.typ != nil {
 			tdesc = types.TypeString(em.typ, func(pk *types.Package) string { return pk.Name() })
 		}
-		name := "emits/" + p.QName(em.fn) + "/" + tdesc
+		name := "emits/" + p.PublicName(em.fn) + "/" + tdesc
 		// first arm whose type the emitted type satisfies
 		land := -1
 		for i, arm := range arms {
